@@ -76,9 +76,9 @@ func main() {
 	}
 	to := *timeout
 	if to == 0 {
-		to = 10
+		to = 30
 		if *tier == "thorough" {
-			to = 60
+			to = 120
 		}
 	}
 	dir, err := os.MkdirTemp(tmpBase(), "govc-")
